@@ -81,6 +81,19 @@ def case_diag_measure(R, D):
             same(fails, "diagpdf:get_marginal", m.regs.get(m.get_marginal(pa, dims)), m.regs.get(m.get_marginal(pb, dims)), params)
             same(fails, "diagpdf:condition_on", m.regs.get(m.condition_on(pa, dims)), m.regs.get(m.condition_on(pb, dims)), params)
         same(fails, "diagpdf:slice", m.regs.get(m.slice(pa, idx)), m.regs.get(m.slice(pb, idx)), params)
+        # the diagonal object as the FACTOR of a product with a full (non-diagonal) measure, every route
+        full = mk_measure(m, rng, R, D)
+        for cached in (False, True):
+            if cached:
+                m.query("integral", full.reg); m.query("integral", a); m.query("integral", b)
+            for uf in (False, True):
+                ra = m.hadamard(full.reg, a, uf); rb = m.hadamard(full.reg, b, uf)
+                same(fails, f"diagmeasure-as-factor:hadamard:uf{int(uf)}:cached{int(cached)}", m.regs.get(ra), m.regs.get(rb), params)
+                if m.regs.get(ra) is not None and m.regs.get(rb) is not None:
+                    fail_if(fails, PROPERTY, f"diagmeasure-as-factor:hadamard:uf{int(uf)}:log_integral", "diagonal factor differs from the general object",
+                            np.asarray(m.regs[m.query("log_integral", ra)]), np.asarray(m.regs[m.query("log_integral", rb)]), params=params)
+                ma = m.multiply(full.reg, a, uf); mb = m.multiply(full.reg, b, uf)
+                same(fails, f"diagmeasure-as-factor:multiply:uf{int(uf)}:cached{int(cached)}", m.regs.get(ma), m.regs.get(mb), params)
         return fails
     return Case(label, fn)
 
